@@ -121,6 +121,16 @@ def units_for(tier: str) -> List[Any]:
 
 
 def run_check(tier: str, seed: int, workers: Any) -> Dict[str, Any]:
+    part1 = run_main(tier, seed, workers)
+    tiny = [((('S', (), 'wait'), ('S', (), 'ret')), None), ((('Y1', (), 'ret'),), None)]
+    deep = {'K': 4, 'J': 0} if tier == 'quick' else {'K': 5, 'J': 0}
+    part2 = runner.run_explorer(
+        factory, (), tiny, deep, seed, workers,
+        rule=f'the two smallest programs with <= {deep["K"]} requests', assumptions=[], bounds=deep, describe=describe_unit)
+    return runner.merge([part1, part2])
+
+
+def run_main(tier: str, seed: int, workers: Any) -> Dict[str, Any]:
     budget = {'K': 2, 'J': 1} if tier == 'quick' else {'K': 3, 'J': 1}
     return runner.run_explorer(
         factory, (), units_for(tier), budget, seed, workers,
